@@ -102,6 +102,8 @@ public:
   int big_chance = 24; // out of 256
   unsigned blocks_visited = 0;
   std::vector<label_t> path;
+  // optional: called at depth 0 before a block is entered; false stops the execution there
+  std::function<bool(const label_t &, const State &)> block_filter;
 
   explicit Interp(verif::Tape &t) : tape(t) {}
 
@@ -210,6 +212,14 @@ public:
       if (depth == 0)
         path.push_back(cur);
       block_t &b = cfg.get_node(cur);
+      if (depth == 0 && block_filter && !block_filter(cur, s)) {
+        // the analysis was told to assume something at this block that this state violates:
+        // the execution is not among those the analysis describes
+        res = Stop::Blocked;
+        if (!path.empty())
+          path.pop_back();
+        break;
+      }
       if (obs)
         obs->block_entry(cfg, cur, s);
       stop = Stop::None;
